@@ -127,6 +127,7 @@ pub struct Case {
     pub desc: Descriptor<Key>,
     pub kind: &'static str,
     pub ms_dump: Vec<(String, Vec<u8>)>, // per leaf: prefix dump, script bytes
+    pub exts: Vec<String>,                // per leaf: the library's ExtData (ext::ext_str), read by the C09 driver
     pub keys: Vec<usize>,
     pub abs: Vec<u32>,
     pub rel: Vec<u32>,
@@ -151,6 +152,7 @@ pub fn make_case(w: &World, seed: u64, kind_sel: u64, depth: u32, sane: bool) ->
     let mut abs = Vec::new();
     let mut rel = Vec::new();
     let mut dumps = Vec::new();
+    let mut exts = Vec::new();
     let mut internal = None;
     let (desc, kind): (Descriptor<Key>, &'static str) = match kind_sel % 5 {
         0 | 1 => {
@@ -159,6 +161,7 @@ pub fn make_case(w: &World, seed: u64, kind_sel: u64, depth: u32, sane: bool) ->
             collect_keys(w, &m, &mut keys);
             collect_locks(&m, &mut abs, &mut rel);
             dumps.push((dump_str(w, &m.node), m.encode().into_bytes()));
+            exts.push(crate::ext::ext_str(&m.ext));
             if kind_sel % 5 == 0 {
                 (Descriptor::new_wsh(m).ok()?, "wsh")
             } else {
@@ -171,6 +174,7 @@ pub fn make_case(w: &World, seed: u64, kind_sel: u64, depth: u32, sane: bool) ->
             collect_keys(w, &m, &mut keys);
             collect_locks(&m, &mut abs, &mut rel);
             dumps.push((dump_str(w, &m.node), m.encode().into_bytes()));
+            exts.push(crate::ext::ext_str(&m.ext));
             (Descriptor::new_sh(m).ok()?, "sh")
         }
         3 => {
@@ -179,6 +183,7 @@ pub fn make_case(w: &World, seed: u64, kind_sel: u64, depth: u32, sane: bool) ->
             collect_keys(w, &m, &mut keys);
             collect_locks(&m, &mut abs, &mut rel);
             dumps.push((dump_str(w, &m.node), m.encode().into_bytes()));
+            exts.push(crate::ext::ext_str(&m.ext));
             (Descriptor::new_bare(m).ok()?, "bare")
         }
         _ => {
@@ -190,6 +195,7 @@ pub fn make_case(w: &World, seed: u64, kind_sel: u64, depth: u32, sane: bool) ->
                 collect_keys(w, &m, &mut keys);
                 collect_locks(&m, &mut abs, &mut rel);
                 dumps.push((dump_str(w, &m.node), m.encode().into_bytes()));
+                exts.push(crate::ext::ext_str(&m.ext));
                 leaves.push(m);
             }
             let tree = match leaves.len() {
@@ -213,7 +219,7 @@ pub fn make_case(w: &World, seed: u64, kind_sel: u64, depth: u32, sane: bool) ->
             (Descriptor::new_tr(w.key(5, true), Some(tree)).ok()?, "tr")
         }
     };
-    Some(Case { desc, kind, ms_dump: dumps, keys, abs, rel, internal })
+    Some(Case { desc, kind, ms_dump: dumps, exts, keys, abs, rel, internal })
 }
 
 pub fn ecdsa_sig(w: &World, i: usize, msg: Message) -> bitcoin::ecdsa::Signature {
@@ -471,6 +477,9 @@ fn emit_case(w: &World, c: &Case, env: &TxEnv, id: u64, sane: bool, rng: &mut Rn
     for (d, sbytes) in c.ms_dump.iter() {
         writeln!(out, "MS {}", d).unwrap();
         writeln!(out, "SCRIPT {}", hex(sbytes)).unwrap();
+    }
+    for e in c.exts.iter() {
+        writeln!(out, "EXT {}", e).unwrap();
     }
     writeln!(out, "SPK {}", hex(spk.as_bytes())).unwrap();
     writeln!(out, "TX 2 {} {}", lock, seq).unwrap();
